@@ -11,7 +11,9 @@ import KrakenModel.Proof.C27
   number of threads — i.e. every interleaving, of any length.  `ceScan` carries an arbitrary index
   list, so the theorems do not depend on what the read-locked scan collected.
   `last` is the ghost record of the most recent announcement (applied `UpdatePeer`) per torrent and
-  peer; "fresh" means `now < expiresAt`.
+  peer; "fresh" means `now < expiresAt`.  Assumption built into the model: an announcement's expiry is
+  computed from a clock value read inside the group's lock section (`updB`), as in the code; the
+  harness checks this by moving the clock between one announcer's clock read and another announcement.
 -/
 namespace KrakenModel.Spec.C27
 open KrakenModel KrakenModel.PeerStore KrakenModel.Proof.C27
@@ -71,10 +73,13 @@ theorem removed_only_expired (ttl : Nat) (acts : List Act) (a : Act) (h : Hash) 
     · right; right; omega
   · right; left; exact ⟨e', he', hee⟩
 
-/-- **C27 (4)** What `GetPeers(h, n)` returns (the read section `getB`, for every permutation drawn
-by `rand.Perm`): at most `n` peers, no peer twice, each the stored entry of its group; and each
-returned entry is the peer's most recent announcement for the torrent, unless the lookup raced with
-the deletion of its group, in which case every entry of that group had already expired. -/
+/-- state form of what `GetPeers(h, n)` returns (the read section `getB`, for every permutation drawn
+by `rand.Perm`): at most `n` peers, no peer twice, each a stored entry of its group. The last clause
+is deliberately weak — in the state in which the lookup reads, an entry is the peer's most recent
+announcement *or* the lookup raced with the deletion of its group (then everything it returns had
+expired, and a newer announcement may already exist in a new group). The statement of the property
+("each reflecting that peer's most recent announcement") is `get_linearizable` below; this theorem
+provides the size and distinctness clauses. -/
 theorem get_spec (ttl : Nat) (acts : List Act) (t : Nat) (perm : List Nat) (r : List Info)
     (h : Hash) (gid : Nat) (n : Int)
     (ht : tget ((sys ttl).run acts) t = .getHold h gid n)
@@ -140,7 +145,7 @@ theorem run_snoc (ttl : Nat) (l : List Act) (a : Act) :
     (sys ttl).run (l ++ [a]) = step ((sys ttl).run l) a := by
   simp [Sys.run, sys, List.foldl_append]
 
-/-- **C27 (7)** `GetPeers` is linearisable with respect to "most recent announcement": whenever a
+/-- **C27 (4)** (the required form of "returns the most recent announcements") `GetPeers` is linearisable with respect to "most recent announcement": whenever a
 lookup is about to read its group (`getHold`), there is a moment `k` of the history, not before the
 lookup looked the group up (the thread has been in this `getHold` ever since), at which the group
 was the live group of the torrent, had exactly the list the lookup reads now, and every entry of
